@@ -42,7 +42,7 @@ PROPS = {
     'C08': dict(k1s=True, k2=[('data', {'res', 'trace', 'holder'}), ('walk', {'holder', 'trace'})], k1=[], k3=['types']),
     'C09': dict(k2=[('pair', ALL)], k1=[], direct=['pair'], k4=True),
     'C10': dict(names=True, k2=[('conv', {'res', 'holder', 'c'})], k1=[], k3=['types']),
-    'C11': dict(names=True, k2=[('data', {'res', 'holder'}), ('abandon', {'res', 'holder'})], k1=[]),
+    'C11': dict(names=True, k2=[('data', {'res', 'holder'}), ('abandon', {'res', 'holder'})], k1=[], k3=['types']),
     'C12': dict(names=True, k2=[('guards', {'res'}), ('around', {'res'}), ('walk', {'res'})], k1=[], k4=True, k3=['rename']),
     'C13': dict(k2=[], k1=['verdict', 'mutants'], k3=['reject']),
     'C14': dict(names=True, k2=[], k1=['verdict', 'struct'], k3=['compile']),
